@@ -98,6 +98,34 @@ func checkMerkleCase(c merkleCase) (res *caseResult) {
 			viol("input-mutated", "leaf %d of the caller's slice was changed", i)
 		}
 	}
+	// the same list handed over as a prefix of a longer slice (spare capacity behind the leaves, as
+	// after append-growth or when one array holds several lists): the root is a function of the list,
+	// not of where it lives, and computing it must not write into the caller's array
+	{
+		const spare = 9
+		pool := make([]common.Hash, n+spare)
+		copy(pool, leaves)
+		for i := n; i < n+spare; i++ {
+			pool[i] = crypto.Keccak256Hash([]byte{0x5e, byte(i)})
+		}
+		want := append([]common.Hash{}, pool...)
+		m3 := merkle.New(pool[:n])
+		if r3 := m3.Root(); r3 != root {
+			viol("root-depends-on-slice-capacity", "the list as a prefix of a longer slice has root %x, as a slice of its own %x", r3, root)
+		}
+		m3.HashNodes()
+		for i := range pool {
+			if pool[i] != want[i] {
+				viol("caller-array-overwritten", "building the tree over list[:%d] changed element %d of the caller's array", n, i)
+				break
+			}
+		}
+		if n > 0 {
+			if sib, err := merkle.FindSiblingNodes(leaves[n-1], m3.HashNodes()); err != nil || !merkle.Verify(leaves[n-1], root, sib) {
+				viol("proof-fails-on-prefix-slice", "the proof of the last position does not verify when the list is a prefix of a longer slice (err %v)", err)
+			}
+		}
+	}
 	if n > 0 && (len(nodes) == 0 || nodes[len(nodes)-1] != root) {
 		viol("hashnodes-root-mismatch", "the last entry of HashNodes is not Root()")
 	}
